@@ -206,6 +206,7 @@ static void add_cand(struct exchange *ex, size_t off, unsigned int len, int code
 		ex->cand[ex->ncand].len = len;
 		ex->cand[ex->ncand].code = code;
 		ex->cand[ex->ncand].alt = alt;
+		ex->cand[ex->ncand].opt = false;
 		ex->ncand++;
 	}
 }
@@ -266,6 +267,13 @@ static void validate_response(struct sim *s, struct exchange *ex, const uint8_t 
 		}
 		if (n - off < len) {
 			ex->truncated = true;
+			/* the PDU announces more bytes than the response holds.  If that length is wrong for its type anyway, the
+			 * client may still get to see it in full - completed by whatever arrives next on the connection, a Serial
+			 * Notify for instance - and then reports it: permitted, not demanded */
+			if (type != 10 && size_ok(p, len, len) <= 0) {
+				add_cand(ex, base + off, 8, 0, size_ok(p, len, len) < 0 ? 5 : -1);
+				ex->cand[ex->ncand - 1].opt = true;
+			}
 			break;
 		}
 		int so = size_ok(p, len, n - off);
@@ -1057,6 +1065,13 @@ serialise:
 	if (close_after)
 		s->peer_closed = true;
 	cntf(1, "sim/response/%s", ex->resp_valid ? "valid" : ex->answer_reset ? "cache-reset" : ex->answer_error ? "error-report" : ex->truncated ? "truncated" : "defective");
+	if (!ex->resp_valid && !ex->answer_reset) {
+		/* whatever the plan called it: a response the reference validator does not accept is a disturbance (a "benign"
+		 * variation can turn out not to be one - churn of a record that the full set announces further down) */
+		sim_disturb(s);
+		if (pl.override == AO_NORMAL && pl.defect <= D_B_CHURN)
+			CNT("sim/benign_variations_that_made_the_response_invalid");
+	}
 	free(stream);
 done:
 	pl_free(&l);
